@@ -31,6 +31,10 @@ var c04Kinds = []c04Kind{
 	{"function-name-colon", []string{"t = {}"}, "function t:abc() end", []string{"t:abc()"}},
 	{"global-definition", nil, "abc = 1", []string{"print(abc)"}},
 	{"table-key", nil, "t = {abc = 1}", []string{"print(t.abc)"}},
+	{"second-name-of-local-list", nil, "local first, abc = 1, 2", []string{"print(first, abc)"}},
+	{"local-list-with-attributes", nil, "local first <const>, abc <const> = 1, 2", []string{"print(first, abc)"}},
+	{"second-parameter", nil, "local function fn(first, abc) return first, abc end", []string{"fn(1, 2)"}},
+	{"generic-for-second-variable", []string{"local t = {}"}, "for first, abc in pairs(t) do print(first, abc) end", nil},
 	{"expression-after-string", []string{"local abc = 1"}, `x = "a\n" .. abc`, nil},
 	{"expression-after-astral-string", []string{"local abc = 1"}, `x = "😀" .. abc .. 'é'`, nil},
 }
